@@ -710,6 +710,20 @@ def a_nondet_bytes(eng, tag, n):
     return v
 
 
+def a_nondet_str(eng, tag, n, lo=48, hi=57):
+    i = eng.nondet_n.get(tag, 0)
+    eng.nondet_n[tag] = i + 1
+    name = f"nd:{tag}#{i}"
+    cs = []
+    for j in range(n):
+        c = z3.Int(f"{name}[{j}]")
+        eng.add_fact(z3.And(c >= lo, c <= hi))
+        cs.append(SymInt(c))
+    v = SymStr(cs) if cs else ""
+    eng.register_input(name, "nd", v)
+    return v
+
+
 def a_cover(eng, label):
     site = "cover:" + str(label)
     eng.sites_reached[site] = eng.sites_reached.get(site, 0) + 1
@@ -844,7 +858,7 @@ def install(eng):
         struct.unpack: m_unpack, struct.pack: m_pack,
         math.floor: m_floor, math.ceil: m_ceil, math.trunc: m_trunc,
         api.assume: a_assume, api.nondet_bool: a_nondet_bool, api.nondet_int: a_nondet_int,
-        api.nondet_bv: a_nondet_bv, api.nondet_bytes: a_nondet_bytes, api.cover: a_cover,
+        api.nondet_bv: a_nondet_bv, api.nondet_bytes: a_nondet_bytes, api.nondet_str: a_nondet_str, api.cover: a_cover,
         api.is_symbolic: a_is_symbolic, api.concretize: a_concretize,
     })
     for name in ("log", "log10", "log2", "pow", "sqrt", "exp", "isnan", "isinf", "isfinite", "modf", "copysign", "fabs"):
